@@ -40,7 +40,7 @@ def bounds(tier):
 def required_guards(tier):
     return ['faults_injected', 'fault_reached_caller', 'unchanged_after_fault', 'completed_after_fault',
             'height>=3', 'kind:insert', 'kind:delete', 'kind:range', 'kind:setop', 'kind:merge',
-            'kind:lookup', 'followup_ok']
+            'kind:lookup', 'followup_ok', 'reference_audits']
 
 
 def configs(tier):
@@ -191,6 +191,16 @@ def ints(contents, ismap):
 
 
 def job(fam, kind, impl, sizes, n, thin):
+    import gc
+    gc.disable()        # reference counts must only move because of the operation under test
+    try:
+        return _job(fam, kind, impl, sizes, n, thin)
+    finally:
+        gc.enable()
+        gc.collect()
+
+
+def _job(fam, kind, impl, sizes, n, thin):
     from BTrees.check import check as bcheck
     ctx = O.Ctx(fam, kind, impl)
     ex = S.explorer(fam, kind, impl, sizes, n, 'K', 'C14', thin=thin)
@@ -211,6 +221,13 @@ def job(fam, kind, impl, sizes, n, thin):
         for op in hist:
             O.fast_apply(ctx, t, op)
         return t
+
+    from .c16 import excess_map
+    tts = (F.cls(fam, 'BTree', 'c'), F.cls(fam, 'TreeSet', 'c'))
+    lts = (F.cls(fam, 'Bucket', 'c'), F.cls(fam, 'Set', 'c'))
+
+    def excess(t):
+        return excess_map([t], tts, lts, (K,))
 
     def followup(t, start_contents):
         """Insert every key, delete every second one, compare with a model."""
@@ -261,9 +278,24 @@ def job(fam, kind, impl, sizes, n, thin):
                 slot.set(('C14', fam, kind, impl, sizes, hist, name, nth))
                 t = rebuild(hist)
                 thunk, _, _ = prepare(t)
+                ex0 = excess(t) if impl == 'c' else None
                 kkey.arm(fail_at=nth)
                 r = thunk()
                 kkey.disarm()
+                if ex0 is not None:
+                    # reference oracle: whatever else refers to a node or key does so before and
+                    # after the failed operation alike, so refcount - owning slots must not move
+                    ex1 = excess(t)
+                    moved = ['%s: %+d' % (ex1[i][0], ex1[i][1] - ex0[i][1])
+                             for i in ex1 if i in ex0 and ex1[i][1] != ex0[i][1]]
+                    guards['reference_audits'] += 1
+                    if moved:
+                        rep.add(dict(fam=fam, kind=kind, impl=impl, site=name, tag=tag, cls='references'),
+                                dict(base, history=[list(o) for o in _plain(hist)], op=name,
+                                     op_detail=repr(mop), nth=nth, of=cnt),
+                                'after comparison #%d of %d failed in %s the reference counts of these '
+                                'objects moved relative to the slots that own them: %s'
+                                % (nth, cnt, name, '; '.join(moved[:5])))
                 evaluations += 1
                 guards['faults_injected'] += 1
                 guards['kind:' + tag] += 1
